@@ -502,8 +502,8 @@ func getUnitCost(ue *chf_context.ChfUe, rg int32, sur *charging_datatype.Service
 		return 1
 	}
 
-	return uint32(serviceUsageRsp.ServiceRating.MonetaryTariff.RateElement.UnitCost.ValueDigits) *
-		uint32(math.Pow10(int(serviceUsageRsp.ServiceRating.MonetaryTariff.RateElement.UnitCost.Exponent)))
+	return uint32(float64(serviceUsageRsp.ServiceRating.MonetaryTariff.RateElement.UnitCost.ValueDigits) *
+		math.Pow10(int(serviceUsageRsp.ServiceRating.MonetaryTariff.RateElement.UnitCost.Exponent)))
 }
 
 // 32.296 6.2.2.3.1: Service usage request method with reservation
